@@ -209,17 +209,18 @@ theorem opSteps_exits (cfg : Config) (block : SignedBlock) (p C : Nat) (hno : On
     (hlook : (cfg.MIN_SEED_LOOKAHEAD + 1) % cfg.EPOCHS_PER_HISTORICAL_VECTOR ≠ 0)
     (hsmall : cfg.EPOCHS_PER_ETH1_VOTING_PERIOD * cfg.SLOTS_PER_EPOCH * 2 + 2 < 2 ^ 64)
     (hq : cfg.CHURN_LIMIT_QUOTIENT ≠ 0) (hC : C + 1 + cfg.MIN_VALIDATOR_WITHDRAWABILITY_DELAY < 2 ^ 64) :
-    OpSteps cfg block .phase0 (ExitInv cfg p C) := by
+    OpSteps cfg block .phase0 (fun _ => ExitInv cfg p C) := by
   -- an operation that keeps registry and slot keeps the exit facts
   have hkeep : ∀ ctx st st', ExitInv cfg p C ctx st → HeadInv cfg p ctx st' → st'.validators = st.validators → st'.slot = st.slot →
       ExitInv cfg p C ctx st' := by
     intro ctx st st' hi hh hv hs
     exact ⟨hh, by rw [hv, hs]; exact hi.act, by rw [hv, hs]; exact hi.budget, by rw [hv]; exact hi.reg, by rw [hs]; exact hi.shard⟩
   refine
-    { fork := fun ctx st hi => hi.head.fork
+    { mono := fun _ _ _ h => h
+      fork := fun _ ctx st hi => hi.head.fork
       header := ?_, payload := ?_, withdrawals := ?_, randao := ?_, eth1 := ?_, proposerSlashing := ?_, attesterSlashing := ?_,
       attestation := ?_, deposit := ?_, exit := ?_, blsChange := ?_, sync := ?_ }
-  · intro ctx st hi
+  · intro _ ctx st hi
     refine ⟨sim_header cfg ctx st block p hi.head.prop hi.head.ctxp, fun st' h => ?_⟩
     have h' := h
     rw [hi.head.ctxp] at h'
@@ -231,7 +232,7 @@ theorem opSteps_exits (cfg : Config) (block : SignedBlock) (p C : Nat) (hno : On
       by rw [hv]; exact hi.head.plt, by rw [hm]; exact hi.head.mixes⟩
   · intro ctx payload hpl; rw [hno.payload] at hpl; cases hpl
   · intro ctx payload hpl; rw [hno.payload] at hpl; cases hpl
-  · intro ctx st _ _ hi
+  · intro ctx _ st _ _ hi
     refine ⟨sim_randao cfg ctx st block p hi.head.prop hi.head.ctxp hi.head.plt hi.head.mixes hpos, fun st' h => ⟨?_, fun hf => by cases hf⟩⟩
     obtain ⟨hv, hs, hf, x, hm⟩ := processRandao_frame cfg ctx st st' block h
     refine hkeep ctx st st' hi ?_ hv hs
@@ -241,19 +242,19 @@ theorem opSteps_exits (cfg : Config) (block : SignedBlock) (p C : Nat) (hno : On
     have hd : SameDuties cfg st st' := sameDuties_of_frame cfg st st' hv hs hseed
     exact ⟨by rw [hf]; exact hi.head.fork, hi.head.ctxp, by rw [proposer_frame cfg st st' hd]; exact hi.head.prop,
       by rw [hv]; exact hi.head.plt, by rw [hm, List.length_set]; exact hi.head.mixes⟩
-  · intro ctx st _ _ hi
+  · intro ctx _ st _ _ hi
     refine ⟨sim_eth1 cfg st block hsmall, fun st' h => ⟨?_, fun hf => by cases hf⟩⟩
     obtain ⟨hv, hs, hm, hf⟩ := processEth1_frame cfg st st' block.eth1_data h
     refine hkeep ctx st st' hi ?_ hv hs
     have hd : SameDuties cfg st st' := sameDuties_of_frame cfg st st' hv hs (seed_of_mixes cfg st st' _ _ hm)
     exact ⟨by rw [hf]; exact hi.head.fork, hi.head.ctxp, by rw [proposer_frame cfg st st' hd]; exact hi.head.prop,
       by rw [hv]; exact hi.head.plt, by rw [hm]; exact hi.head.mixes⟩
-  · intro ctx st x hx; rw [hno.ps] at hx; cases hx
-  · intro ctx st x hx; rw [hno.as] at hx; cases hx
-  · intro ctx st x hx; rw [hno.att] at hx; cases hx
-  · intro ctx st d hd; rw [hno.dep] at hd; cases hd
+  · intro ctx _ st x hx; rw [hno.ps] at hx; cases hx
+  · intro ctx _ st x hx; rw [hno.as] at hx; cases hx
+  · intro ctx _ st x hx; rw [hno.att] at hx; cases hx
+  · intro _ ctx st d hd; rw [hno.dep] at hd; cases hd
   · -- voluntary exits
-    intro ctx st exit _ hi
+    intro ctx _ st exit _ hi
     have hes := hi.exitSmall hC
     refine ⟨sim_exit cfg ctx st exit hi.act hq hi.reg hes hi.shard, fun st' h => ⟨?_, fun hf => by cases hf⟩⟩
     obtain ⟨v, hv, hactive, hst'⟩ := processVoluntaryExit_shape cfg ctx st st' exit hi.act hq hi.reg hes h
@@ -285,7 +286,7 @@ theorem opSteps_exits (cfg : Config) (block : SignedBlock) (p C : Nat) (hno : On
     · rw [hslot, hvals]; exact hbud
     · rw [hvals]; exact hreg
     · rw [hslot]; exact hi.shard
-  · intro ctx st x hx; rw [hno.bls] at hx; cases hx
+  · intro ctx _ st x hx; rw [hno.bls] at hx; cases hx
   · intro ctx agg hsa; rw [hno.sync] at hsa; cases hsa
 
 
@@ -298,6 +299,6 @@ theorem processBlock_exits (cfg : Config) (ctx : Ctx) (st : State) (block : Sign
     (hq : cfg.CHURN_LIMIT_QUOTIENT ≠ 0) (hC : C + 1 + cfg.MIN_VALIDATOR_WITHDRAWABILITY_DELAY < 2 ^ 64)
     (htyped : Block.check_types cfg block = .ok ()) :
     Sim (Block.process_block cfg st block) (processBlock cfg ctx st block) :=
-  processBlock_sim (opSteps_exits cfg block p C hno hpos hlook hsmall hq hC) ctx st hi htyped
+  processBlock_sim (opSteps_exits cfg block p C hno hpos hlook hsmall hq hC) 0 ctx st hi htyped
 
 end Zrnt.Proofs.BlockM
